@@ -59,6 +59,7 @@ class Snapshot:
         self.fp = {}      # path -> fingerprint (hashable, small)
         self.keep = {}    # path -> shallow copy of a mutable container (for the report)
         self.seen = set()  # ids of functions / classes / instances already walked (first path wins)
+        self.mods = set()  # names of the dippy modules loaded when the snapshot was taken
 
     # ------------------------------------------------------------------ leaves and containers
     def walk(self, path, v, depth=0):
@@ -322,6 +323,7 @@ def snapshot(extra=None):
     for mname in sorted(n for n in sys.modules if is_dippy(n) and sys.modules[n] is not None):
         mod = sys.modules[mname]
         mn = modname(mname)
+        s.mods.add(mn)
         for k, v in list(vars(mod).items()):
             if k in SKIP_DUNDER:
                 continue
@@ -352,10 +354,19 @@ def describe(s, path):
 def diff(a: Snapshot, b: Snapshot):
     """[[path, before, after, detail]] for every fingerprint that differs, container changes explained."""
     out = []
+    imported = b.mods - a.mods
+    for mn in sorted(imported):
+        # a module imported on first use (Python's import memo): one entry, not one per global of it
+        out.append([f"import:{mn}", "<not imported>", "imported", ""])
+    new_full = {("dippy." + mn) for mn in imported}
     for path in sorted(set(a.fp) | set(b.fp)):
         x, y = a.fp.get(path), b.fp.get(path)
         if x == y:
             continue
+        if path.partition(":")[0] in imported:
+            continue
+        if x is None and isinstance(y, tuple) and y[:1] == ("module",) and y[1] in new_full:
+            continue        # the attribute the import system sets on the parent package
         detail = ""
         ka, kb = a.keep.get(path), b.keep.get(path)
         if isinstance(ka, set) and isinstance(kb, set):
